@@ -255,6 +255,31 @@ static void random_strings(long count) {
     }
 }
 
+// every string of one and of two bytes (all 256 / 65536): exhaustive over lead x second byte
+static void all_short_byte_strings() {
+    for (int a = 0; a < 256; ++a) emit("bytes1", bytes(1, char(a)));
+    for (int a = 0; a < 256; ++a)
+        for (int b = 0; b < 256; ++b) { bytes s(2, char(a)); s[1] = char(b); emit("bytes2", s); }
+}
+
+// thorough: three-byte strings with one position restricted to the boundary alphabet, and every
+// 3/4-byte lead with every second byte and class-representative further bytes
+static void wide_byte_strings() {
+    bytes s(3, '\0');
+    for (size_t i = 0; i < NALPHA; ++i)
+        for (int b = 0; b < 256; ++b)
+            for (int c = 0; c < 256; ++c) { s[0] = char(ALPHABET[i]); s[1] = char(b); s[2] = char(c); emit("bytes3", s); }
+    for (int a = 0; a < 256; ++a)
+        for (size_t i = 0; i < NALPHA; ++i)
+            for (size_t j = 0; j < NALPHA; ++j) { s[0] = char(a); s[1] = char(ALPHABET[i]); s[2] = char(ALPHABET[j]); emit("bytes3", s); }
+    static const uint8_t rest[] = { 0x7F, 0x80, 0xBF, 0xC0 };
+    bytes q(4, '\0');
+    for (int a = 0xE0; a < 0x100; ++a)
+        for (int b = 0; b < 256; ++b)
+            for (uint8_t c : rest)
+                for (uint8_t e : rest) { q[0] = char(a); q[1] = char(b); q[2] = char(c); q[3] = char(e); emit("bytes4", q); }
+}
+
 // thorough: every code point 0..10FFFF in its (generalised) canonical form, surrogates included,
 // every over-long 2/3/4-byte form and every 4-byte form F4 90.. (above 10FFFF)
 static void all_code_points() {
@@ -345,12 +370,13 @@ int main(int argc, char** argv) {
     std::vector<bytes> alpha;
     for (size_t i = 0; i < NALPHA; ++i) alpha.push_back(bytes(1, char(ALPHABET[i])));
     all_strings("alpha", alpha, g_thorough ? 4 : 3);
+    all_short_byte_strings();
     code_point_edges();
     topic_structure();
     share_forms();
     length_edges();
     random_strings(g_thorough ? 300000 : 20000);
-    if (g_thorough) all_code_points();
+    if (g_thorough) { all_code_points(); wide_byte_strings(); }
 
     for (FILE* f : g_out)
         if (fclose(f) != 0) { perror("close"); return 2; }
